@@ -59,7 +59,7 @@ def atoiAccepts (s : String) : Bool :=
 
 /-- `ValidateCounterpartyID`. -/
 def validateCounterpartyID (id : String) (p : Int) : Bool :=
-  id != "" && id.utf8ByteSize ≤ Gen.maxCounterpartyIDLength &&
+  id != "" && byteLen id ≤ Gen.maxCounterpartyIDLength &&
     (if p == PROTOCOL_IBC then isValidChannelID id
      else if p == PROTOCOL_CCTP || p == PROTOCOL_HYPERLANE then isCanonicalU32 id
      else if p == PROTOCOL_INTERNAL then true
